@@ -207,8 +207,9 @@ func ZZ_C09_SingleInstructions(sv *zzsv.T) {
 	f := sv.Choice("form", len(forms))
 	src := strings.ReplaceAll(forms[f], "B", b)
 	sv.Note("script", src)
-	ex := sv.Int64("E")
-	sv.Assume(ex >= 1000000000)
+	// (concrete huge operands: a loop over a symbolic bound would cost a
+	// solver query per iteration)
+	ex := []int64{1000000000, 9000000000000000000}[sv.Choice("E", 2)]
 	ctx := sv.Ctx("cancel_at_poll", sv.Param("single.maxpolls", 30, 60))
 	calls := 0
 	e := New(src)
